@@ -8,6 +8,7 @@ import YashModel.Trap.Honest
 import YashModel.Trap.Theorems
 import YashModel.Trap.Frames
 import YashModel.Trap.Tables
+import YashModel.Trap.TheoremsExt
 namespace YashModel.Trap
 
 /-! ## 1. "regardless of when the signal arrives": arrivals while an action runs -/
@@ -88,6 +89,43 @@ theorem system_error_reported_iff_call_failed (st : FState) (op : Op) :
     ∧ ∃ L, (stepF st op).sys.log = st.sys.log ++ L := by
   exact ⟨honest_step st op, log_grows st op⟩
 
+/-- `peek_state` (`trap -p`) whose `get_disposition` fails (was: "assumed not to fail"): the error is
+    returned, no entry is inserted, and neither the trap set nor the system changes — for every state and
+    fault plan; a successful peek never changes the system either (it only reads). -/
+theorem peek_error_changes_nothing (st : FState) (c : Nat) :
+    ((peekStateF st c).2 = none →
+        (peekStateF st c).1.traps = st.traps ∧ get st.traps c = none ∧ c ≠ 0)
+    ∧ (peekStateF st c).1.sys.sys = st.sys.sys := by
+  have hins : ∀ (fs : FSys) (e : Option GrandState),
+      ((GrandState.insertFromSystemIfVacantF fs e c).2 = none → e = none ∧ c ≠ 0)
+      ∧ (GrandState.insertFromSystemIfVacantF fs e c).1.sys = fs.sys := by
+    intro fs e
+    unfold GrandState.insertFromSystemIfVacantF
+    cases e with
+    | some g => simp
+    | none =>
+      simp only
+      by_cases hc : c ≠ 0
+      · rw [if_pos hc]
+        have hg : (fs.getDisposition c).2.sys = fs.sys := by
+          unfold FSys.getDisposition; split <;> rfl
+        cases h1 : (fs.getDisposition c).1 with
+        | none => simp [hg, hc]
+        | some d => simp [hg]
+      · rw [if_neg hc]; simp
+  have h := hins st.sys (get st.traps c)
+  unfold peekStateF
+  simp only
+  cases h2 : (GrandState.insertFromSystemIfVacantF st.sys (get st.traps c) c).2 with
+  | none => exact ⟨fun _ => ⟨rfl, h.1 h2⟩, h.2⟩
+  | some g => exact ⟨fun hh => by simp at hh, h.2⟩
+
+/-- non-vacuity: the first `trap -p INT` fails, the second succeeds and records the inherited `Ignore` -/
+example :
+    let st := FState.init (fun s => if s = SIGINT then .ignore else .default) [true]
+    (peekStateF st SIGINT).2 = none
+    ∧ ((peekStateF (peekStateF st SIGINT).1 SIGINT).2.map (·.action)) = some .ignore := by decide
+
 /-- non-vacuity: `enable_internal_dispositions_for_terminators` whose fourth primitive call (the
     `sigaction(TERM, Ignore)`) fails: three calls succeeded, the fourth is recorded as failed, no fifth
     is made, and `Err` is returned -/
@@ -98,8 +136,6 @@ example :
 
 
 /-! ## 3. `enter_subshell` against its documentation (round-7 seed) -/
-
-theorem posixReset_eq (a : Action) : posixReset a = resetAction a := by cases a <;> rfl
 
 /-- ★ `subshell_meets_documentation` — the Spec function `subshellExpect` (Spec.lean: what the
     documentation of `TrapSet::enter_subshell` and POSIX say, computed from the state BEFORE the call
@@ -296,5 +332,46 @@ theorem tables_frames_and_in_trap :
   refine ⟨by decide, by decide, ?_, ?_⟩
   · intro f; cases f <;> simp [Frame.variant, TrapTables.frameVariants]
   · intro f; cases f <;> simp [Frame.isSignalTrap, Frame.variant]
+
+/-! ## 6. The Spec column's state verdict, for all histories -/
+
+/-- `specCheck` — the executable verdict the driver prints in the Spec column after every operation of an ops
+    / `tb` case (installed = merge, blocked ⇔ caught, KILL/STOP untouched, for the ten watched signals) — is
+    `none` for EVERY history from every inherited dispositions ∈ {Default, Ignore}: the per-case evaluation can
+    only ever fire when the model itself is changed (it is a consequence of `disposition_invariant`,
+    `mask_iff_catch`, `kill_stop_never_caught`). -/
+theorem spec_check_never_fires (init : Nat → Disp) (hinit : ∀ s, init s ≠ .catch) (ops : List Op) :
+    specCheck init (run (State.init init) ops) = none := by
+  unfold specCheck
+  rw [List.findSome?_eq_none_iff]
+  intro sig hsig
+  have hs0 : sig ≠ 0 := by
+    intro h; subst h; revert hsig; decide
+  have h1 := disposition_invariant init hinit ops sig hs0
+  have h2 := mask_iff_catch init hinit ops sig
+  have h3 := fun hk => (kill_stop_never_caught init hinit ops sig hk).1
+  simp only [Option.map_eq_none_iff]
+  unfold specViolation
+  rw [if_neg (by simpa using h1)]
+  have hb : (run (State.init init) ops).sys.blocked sig
+      = ((run (State.init init) ops).sys.disp sig == .catch) := by
+    by_cases hd : (run (State.init init) ops).sys.disp sig = .catch
+    · rw [h2.mpr hd, hd]; rfl
+    · have hbl : (run (State.init init) ops).sys.blocked sig = false := by
+        cases hbl : (run (State.init init) ops).sys.blocked sig with
+        | false => rfl
+        | true => exact absurd (h2.mp hbl) hd
+      rw [hbl]
+      exact (beq_eq_false_iff_ne.mpr hd).symm
+  rw [if_neg (by simpa using hb)]
+  rw [if_neg]
+  rintro ⟨hk, hne⟩
+  exact hne (h3 hk)
+
+/-- … and over the recording layer when no call fails (the `state:` clause of `scViolation`) -/
+theorem spec_check_never_fires_faultless (init : Nat → Disp) (hinit : ∀ s, init s ≠ .catch) (ops : List Op) :
+    specCheck init (runF (FState.init init []) ops).toState = none := by
+  rw [(faultless_refines init ops).1]
+  exact spec_check_never_fires init hinit ops
 
 end YashModel.Trap
